@@ -14,6 +14,7 @@ import (
 	"sort"
 	"strings"
 	"sync"
+	"sync/atomic"
 	"syscall"
 	"time"
 
@@ -29,7 +30,13 @@ var (
 	Session *packet.Session
 	devnull *os.File
 	Hangs   int
+	// BlockedSeen counts handler calls that returned but left the handler blocked (see GuardProbe)
+	BlockedSeen int
 )
+
+// Skipped reports a result that was not observed at all because the run had already given up on
+// the watchdog (too many spinning goroutines left behind): such a case says nothing about its input.
+func Skipped(impl string) bool { return strings.Contains(impl, "hang-skipped") }
 
 func setup() {
 	once.Do(func() {
@@ -75,6 +82,72 @@ func Guard(f func() string) string {
 	}
 	os.Stdout = saved
 	return res
+}
+
+// Blocked is appended to the result of a handler call that returned but left the handler unusable:
+// the follow-up calls on the same handler (Probe) did not return (a lock taken by the call was not
+// released on the path it took) or panicked.
+const Blocked = "+blocked"
+
+var (
+	probeOnce  sync.Once
+	probeFrame packet.Frame
+	probeAddr  = netip.MustParseAddr("192.0.2.77")
+)
+
+// ProbePayload is the trivial well-formed packet of the probe: a response to `verif.probe. A IN`
+// without any record (ProcessDNS takes the handler's write lock and leaves the table as it is).
+var ProbePayload = []byte{0x56, 0x50, 0x81, 0x80, 0, 1, 0, 0, 0, 0, 0, 0, 5, 'v', 'e', 'r', 'i', 'f', 5, 'p', 'r', 'o', 'b', 'e', 0, 0, 1, 0, 1}
+
+// Probe is what the packet loop and its readers do next with the same handler, reduced to the
+// cheapest calls: DNSFind and DNSExist (read lock) and ProcessDNS of ProbePayload (write lock).
+// "Terminates on arbitrary packets" includes that these still return after any packet.
+func Probe(h *dn.DNSHandler) {
+	probeOnce.Do(func() {
+		fr := UDPFrame(53, 40001, netip.MustParseAddr("192.168.0.129"), ProbePayload)
+		probeFrame, _ = Session.Parse(fr)
+	})
+	h.DNSFind("verif.probe")
+	h.DNSExist(probeAddr)
+	h.ProcessDNS(probeFrame)
+}
+
+// GuardProbe is Guard(f) followed, inside the same watchdog, by Probe(h).  When f returned r but
+// the probe did not return (or panicked) the outcome is r+Blocked.
+func GuardProbe(h *dn.DNSHandler, f func() string) string {
+	setup()
+	if BlockedSeen >= 3 {
+		// every blocked handler costs a full watchdog period; three witnesses are enough
+		return Guard(f)
+	}
+	var first atomic.Value
+	res := Guard(func() string {
+		r := f()
+		first.Store(r)
+		Probe(h)
+		return r
+	})
+	if r, ok := first.Load().(string); ok && (res == "hang" || res == "panic") {
+		if r == "noparse" {
+			return r
+		}
+		if res == "hang" {
+			Hangs-- // the abandoned goroutine is parked on a lock, it does not spin
+		}
+		BlockedSeen++
+		return r + Blocked
+	}
+	return res
+}
+
+// IsBlocked reports whether a canonical result carries the Blocked mark and describes it.
+func IsBlocked(call, impl string) (string, bool) {
+	i := strings.Index(impl, Blocked)
+	if i < 0 {
+		return "", false
+	}
+	j := strings.LastIndexByte(impl[:i], ' ') + 1
+	return call + " returned (" + strings.TrimSpace(impl[j:i]) + ") but left the handler blocked: DNSFind / DNSExist / ProcessDNS(empty response) on the same handler afterwards do not return normally (a lock is still held on that path)", true
 }
 
 // Exact returns a copy whose capacity equals its length (so that slicing past the length panics
@@ -204,7 +277,7 @@ func Process(payloads [][]byte) (string, map[string]packet.DNSEntry, bool) {
 		}
 		var frame packet.Frame
 		var perr error
-		r := Guard(func() string {
+		r := GuardProbe(h, func() string {
 			frame, perr = Session.Parse(fr)
 			if perr != nil {
 				return "noparse"
@@ -225,6 +298,9 @@ func Process(payloads [][]byte) (string, map[string]packet.DNSEntry, bool) {
 			return "", nil, false
 		}
 		rs = append(rs, r)
+		if strings.HasSuffix(r, Blocked) || strings.HasPrefix(r, "hang") {
+			break // the handler is gone: every further call on it would only wait for the watchdog
+		}
 	}
 	var es []string
 	for _, e := range h.DNSTable {
@@ -256,7 +332,7 @@ func MDNS(payload []byte) (string, []packet.IPNameEntry, []packet.IPNameEntry, b
 	}
 	h := dn.VerifNew(Session)
 	var v4, v6 []packet.IPNameEntry
-	r := Guard(func() string {
+	r := GuardProbe(h, func() string {
 		frame, err := Session.Parse(fr)
 		if err != nil || len(frame.Payload()) != len(payload) {
 			return "noparse"
@@ -274,24 +350,43 @@ func MDNS(payload []byte) (string, []packet.IPNameEntry, []packet.IPNameEntry, b
 func NBNS(payload []byte) string {
 	setup()
 	h := dn.VerifNew(Session)
-	return Guard(func() string {
+	return GuardProbe(h, func() string {
 		n, err := h.ProcessNBNS(nil, nil, Exact(payload))
 		return fmt.Sprintf("ok %s %s err=%v", core.Hex([]byte(n.Type)), core.Hex([]byte(n.Name)), err != nil)
 	})
 }
 
+// Slack marks a parseNodeNameArray result that depends on what lies beyond the slice length.
+const Slack = " | spare-capacity: "
+
+// NodeNames runs parseNodeNameArray twice: on a backing array that ends with the slice (every access
+// past the length panics) and on the same bytes followed by 64 spare bytes of capacity (a re-slice
+// past the length silently reads them).  The canonical result is the tight one; when the slack run
+// differs it is appended after Slack.
 func NodeNames(b []byte) string {
-	return Guard(func() string {
-		names, err := dn.VerifParseNodeNameArray(Exact(b))
-		if err != nil {
-			return "err " + ErrName(err)
-		}
-		var s []string
-		for _, n := range names {
-			s = append(s, core.Hex([]byte(n)))
-		}
-		return "ok [" + strings.Join(s, ",") + "]"
-	})
+	run := func(buf []byte) string {
+		return Guard(func() string {
+			names, err := dn.VerifParseNodeNameArray(buf)
+			if err != nil {
+				return "err " + ErrName(err)
+			}
+			var s []string
+			for _, n := range names {
+				s = append(s, core.Hex([]byte(n)))
+			}
+			return "ok [" + strings.Join(s, ",") + "]"
+		})
+	}
+	tight := run(Exact(b))
+	roomy := make([]byte, len(b)+64)
+	copy(roomy, b)
+	for i := len(b); i < len(roomy); i++ {
+		roomy[i] = 0x04 // would read as the flags of a unique name
+	}
+	if slack := run(roomy[:len(b)]); slack != tight {
+		return tight + Slack + slack
+	}
+	return tight
 }
 
 func DecodeNBNSName(b []byte) string {
@@ -310,7 +405,7 @@ func SSDP(payload []byte) (kind string, secs int64, name packet.NameEntry, loc s
 	setup()
 	h := dn.VerifNew(Session)
 	before := time.Now()
-	kind = Guard(func() string {
+	kind = GuardProbe(h, func() string {
 		n, l, err := h.ProcessSSDP(nil, nil, Exact(payload))
 		name, loc = n, l
 		if err != nil {
